@@ -132,6 +132,33 @@ CLAIMED['C20'] = dict(
          'never trip a guard.',
     ref='3/C20')
 
+CLAIMED['C10'] = dict(
+    text='Compositional: with hessenbergize, householder_matrix, ggivens, the shift estimator and np.linalg.eigvals replaced by fresh symbolic matrices / reals '
+         '(arbitrary matrices for the implicit variants; rationally parametrised reflectors / plane rotations for the explicit-shift and real-block variants, whose '
+         'similarity needs unitarity), every Schur variant (real-expansion rayleigh/wilkinson/double; pure none/rayleigh; implicit; unified none/rayleigh/implicit/aed/ds '
+         'with and without precomputed shifts; experimental aed_windowed/francis_ds) run for n = 2 (n = 3 and two outer iterations in thorough) satisfies T = Q^H A Q '
+         'as a polynomial identity on every path; entries where they differ are exactly the deflated sub-diagonal ones and were bounded by the tolerance scale; the '
+         'converged flag implies a negligible sub-diagonal; with zero iterations Q = P0^H and T = H0.',
+    ref='3/C10',
+    note='Unitarity of Q rests on the kernel contracts verified in C08 (reflectors) and C16 (rotations); convergence is not claimed. Floats as reals; shim; z3.')
+CLAIMED['C13'] = dict(
+    text='Deterministic parts only: CGNEQSolver (no preconditioner, shapes up to 2x2 real / 2x1 full, <= 2 steps): the last reported residual is the true '
+         '||I - XA||_F/sqrt(n) of the returned X, converged only below tol, flag consistent; RSP column variant (block size 1, all sketch draws symbolic, exact QR stub, '
+         'incl. an injected micro-solver failure): one residual per successful iteration, the last proxy is the proxy of the returned X, the flag is computed from it, '
+         'and the projection step satisfies its sketched constraint up to the documented 1e-30 regulariser; Hybrid: hyperpower step = (sum_{i<p} F^i) X and '
+         'I - X+A = F^p, proxy / flag consistency.',
+    ref='3/C13',
+    note='That a small proxy (random test sketch) implies a small true residual is probabilistic and outside the claim; so are the SPD/CG micro-solver, block sizes > 1 '
+         'and convergence. Floats as reals; shim; z3.')
+CLAIMED['C19'] = dict(
+    text='Boundedness clauses only: for n = 1 (full quaternion A, any start vector, 1-2 iterations; n = 2 real-axis in thorough) on every exit path (breakdown, '
+         'convergence test, stagnation test, budget) power_iteration returns a unit-norm vector and estimate = |v^H A v| >= 0 (= |a| for n = 1, <= ||A||_F for n = 2); '
+         'the Hermitian fast path of power_iteration_nonhermitian returns a real eigenvalue in both formats and a unit vector; the complex-adjoint path returns a unit '
+         'quaternion vector (thorough).',
+    ref='3/C19',
+    note='Convergence to the dominant eigenpair, the sign clause and the sharp bound by the spectral norm are limit / LAPACK statements and are outside the claim. '
+         'Floats as reals; shim; z3.')
+
 NOT_YET = {}
 
 NA = {
